@@ -100,6 +100,7 @@ type FuncContract struct {
 	Name       string
 	Pkg        string
 	Trusted    bool
+	Assumes    []Clause
 	Requires   []Clause
 	Ensures    []Clause
 	Assigns    []string // type strings; "nothing", "all"
@@ -187,7 +188,7 @@ func parseContractFile(path, pkg string) (*ContractFile, error) {
 	// join continuation lines: a line that does not start with a keyword continues the previous one
 	kw := map[string]bool{"func": true, "requires": true, "ensures": true, "assigns": true, "ghost": true, "ghostparam": true,
 		"loop": true, "call": true, "trusted": true, "pred": true, "lemma": true, "pure": true, "maypanic": true,
-		"guarded_by": true, "return": true, "note": true, "entry": true, "upred": true, "holds": true, "keeps": true}
+		"guarded_by": true, "return": true, "note": true, "entry": true, "upred": true, "holds": true, "keeps": true, "assume": true}
 	var joined []rawLine
 	for _, r := range raws {
 		first := r.text
@@ -228,6 +229,15 @@ func parseContractFile(path, pkg string) (*ContractFile, error) {
 			if trusted {
 				cf.Trusted = append(cf.Trusted, pkg+"."+name)
 			}
+		case "assume":
+			if cur == nil {
+				return nil, fail(fmt.Errorf("clause outside func"))
+			}
+			e, err := parseExpr(rest)
+			if err != nil {
+				return nil, fail(err)
+			}
+			cur.Assumes = append(cur.Assumes, Clause{Text: rest, E: e, Line: r.line})
 		case "requires", "ensures":
 			if cur == nil {
 				return nil, fail(fmt.Errorf("clause outside func"))
